@@ -78,7 +78,7 @@ def facts_of_case(case):
 # ---------------------------------------------------------------------------
 # cast oracle
 # ---------------------------------------------------------------------------
-CAST_OPS = ["multiply_out", "multiply3", "power3", "aspolynomial_names",
+CAST_OPS = ["add_broadcast", "multiply_out", "multiply3", "power3", "aspolynomial_names",
             "from_data", "dtype_request", "aspolynomial", "aspolynomial_poly", "from_attributes",
             "from_attributes_mixed", "dict_mixed", "variable", "symbols", "astype", "add", "subtract",
             "multiply", "power", "getitem", "reshape", "transpose", "concatenate", "stack", "where",
@@ -243,6 +243,21 @@ def run_cast_case(case, ctx):
                 ab = numpy.multiply(a, b)
                 want = {(0,): ab, (1,): ab, (2,): ab, (3,): ab}
                 check_terms(ctx, facts, case, got, want, res_dtype, "multiply of dtypes")
+            elif op == "add_broadcast":
+                # operands that need broadcasting: the promoted dtype must be numpy's
+                if res_dtype == numpy.dtype(bool) or res_dtype.kind == "u":
+                    return
+                row = a.reshape(-1)[:3] if a.size >= 3 else numpy.resize(a, 3)
+                wide = numpy.resize(b, (2, 3))
+                x = numpoly.polynomial_from_attributes([[0], [1]], [row, row], names=("q0",))
+                y = numpoly.polynomial_from_attributes([[1], [2]], [wide, wide], names=("q0",))
+                for label, func in (("add", numpy.add), ("subtract", numpy.subtract)):
+                    got = func(x, y)
+                    zero_w, zero_r = numpy.zeros_like(wide), numpy.zeros_like(row)
+                    want = {(0,): func(row, zero_w), (1,): func(row, wide), (2,): func(zero_r, wide)}
+                    if not check_terms(ctx, facts, case, got, want, res_dtype,
+                                       f"{label} with broadcasting (3,) vs (2, 3)"):
+                        break
             elif op == "multiply_out":
                 # explicit output polynomial of dtype T, pre-filled with a sentinel
                 # only casts numpy calls "same kind" (narrowing within a kind, or widening):
